@@ -11,14 +11,153 @@ package main
 // packs, index, snapshot.
 
 import (
+	"context"
 	"fmt"
 	"os"
 	"path/filepath"
+	"sort"
 	"strings"
+	"sync/atomic"
 	"time"
 
 	"github.com/restic/restic/internal/backend"
+	"github.com/restic/restic/internal/data"
+	"github.com/restic/restic/internal/global"
+	"github.com/restic/restic/internal/repository/index"
+	"github.com/restic/restic/internal/restic"
+	"github.com/restic/restic/internal/ui/progress"
 )
+
+type c14Counter struct{}
+
+func (c14Counter) Add(uint64)            {}
+func (c14Counter) SetMax(uint64)         {}
+func (c14Counter) Get() (uint64, uint64) { return 0, 0 }
+func (c14Counter) Done()                 {}
+
+// c14Semantic decodes the uploads of one finished backup (mods, in upload order): index files into
+// (blob, pack) entries, the snapshot into the set of blobs its tree needs; oldIdx / oldPacks are the
+// index and pack files that existed before the backup.  Blobs and packs are renamed to small numbers.
+func c14Semantic(e *venv, mods []vop, oldIdx, oldPacks map[string]bool) (term, human string, err error) {
+	_, _, err = e.run(func(ctx context.Context, gopts global.Options) error {
+		printer := progress.NewTerminalPrinter(false, 0, gopts.Term)
+		repo, err := global.OpenRepository(ctx, gopts, printer)
+		if err != nil {
+			return err
+		}
+		if err := repo.LoadIndex(ctx, printer); err != nil {
+			return err
+		}
+		decode := func(name string) ([][2]string, error) {
+			id, err := restic.ParseID(name)
+			if err != nil {
+				return nil, err
+			}
+			buf, err := repo.LoadUnpacked(ctx, restic.IndexFile, id)
+			if err != nil {
+				return nil, err
+			}
+			idx, err := index.DecodeIndex(buf, id)
+			if err != nil {
+				return nil, err
+			}
+			var out [][2]string
+			for pb := range idx.Values() {
+				out = append(out, [2]string{pb.Blob.BlobHandle.String(), pb.Pack.String()})
+			}
+			sort.Slice(out, func(i, j int) bool { return out[i][0] < out[j][0] })
+			return out, nil
+		}
+		// what the snapshot needs
+		needs := restic.NewBlobSet()
+		for _, m := range mods {
+			if m.Op == "Save" && m.Type == backend.SnapshotFile {
+				id, err := restic.ParseID(m.Name)
+				if err != nil {
+					return err
+				}
+				sn, err := data.LoadSnapshot(ctx, repo, id)
+				if err != nil {
+					return err
+				}
+				if err := data.FindUsedBlobs(ctx, repo, restic.IDs{*sn.Tree}, needs, c14Counter{}); err != nil {
+					return err
+				}
+			}
+		}
+		bn, pn := map[string]int{}, map[string]int{}
+		num := func(m map[string]int, k string) int {
+			if v, ok := m[k]; ok {
+				return v
+			}
+			m[k] = len(m)
+			return m[k]
+		}
+		needed := map[string]bool{}
+		var needList []string
+		for h := range needs {
+			needed[h.String()] = true
+			needList = append(needList, h.String())
+		}
+		sort.Strings(needList)
+		// initial view: entries of the old index files for needed blobs whose pack existed
+		var packs0, idx0 []string
+		seenPack := map[string]bool{}
+		var oldNames []string
+		for n := range oldIdx {
+			oldNames = append(oldNames, n)
+		}
+		sort.Strings(oldNames)
+		for _, n := range oldNames {
+			es, err := decode(n)
+			if err != nil {
+				return err
+			}
+			for _, e2 := range es {
+				if needed[e2[0]] && oldPacks[e2[1]] {
+					idx0 = append(idx0, fmt.Sprintf("(%d, %d)", num(bn, e2[0]), num(pn, e2[1])))
+					if !seenPack[e2[1]] {
+						seenPack[e2[1]] = true
+						packs0 = append(packs0, fmt.Sprint(num(pn, e2[1])))
+					}
+				}
+			}
+		}
+		var tr, hs []string
+		for _, m := range mods {
+			if m.Op != "Save" {
+				continue
+			}
+			switch m.Type {
+			case backend.PackFile:
+				tr = append(tr, fmt.Sprintf("SavePack %d", num(pn, m.Name)))
+				hs = append(hs, "pack")
+			case backend.IndexFile:
+				es, err := decode(m.Name)
+				if err != nil {
+					return err
+				}
+				ts := make([]string, len(es))
+				for i, e2 := range es {
+					ts[i] = fmt.Sprintf("(%d, %d)", num(bn, e2[0]), num(pn, e2[1]))
+				}
+				tr = append(tr, "SaveIdx "+coqList(ts))
+				hs = append(hs, fmt.Sprintf("index(%d entries)", len(es)))
+			case backend.SnapshotFile:
+				ns := make([]string, len(needList))
+				for i, h := range needList {
+					ns[i] = fmt.Sprint(num(bn, h))
+				}
+				tr = append(tr, "SaveSnap "+coqList(ns))
+				hs = append(hs, fmt.Sprintf("snapshot(needs %d blobs)", len(needList)))
+			}
+		}
+		term = fmt.Sprintf("CWriterSem (mkView %s %s) %s", coqList(packs0), coqList(idx0), coqList(tr))
+		human = fmt.Sprintf("already indexed needed blobs=%d; uploads=%v", len(idx0), hs)
+		return nil
+	})
+	return term, human, err
+}
 
 var _ = verifRegister("C14", engineC14)
 
@@ -42,11 +181,19 @@ func c14ShortIDs(js string) []string {
 }
 
 func engineC14(c *vctx) error {
-	// never hang the check (a broken writer may never return)
-	time.AfterFunc(time.Duration(c.n(8, 40))*time.Minute, func() {
-		fmt.Fprintln(os.Stderr, "C14 engine watchdog: a backup or reader did not return")
-		os.Exit(3)
-	})
+	// never hang the check (a broken writer may never return): no progress for 5 minutes = give up
+	var progress atomic.Int64
+	tick := func() { progress.Store(time.Now().UnixNano()) }
+	tick()
+	go func() {
+		for {
+			time.Sleep(5 * time.Second)
+			if time.Since(time.Unix(0, progress.Load())) > 5*time.Minute {
+				fmt.Fprintln(os.Stderr, "C14 engine watchdog: a backup or reader did not return")
+				os.Exit(3)
+			}
+		}
+	}()
 	c.Header("Model.C14m", "C14m.case", "C14m.check_case")
 	c.Preamble("Import C14m.")
 	e := newVenv(c, "repo")
@@ -59,6 +206,7 @@ func engineC14(c *vctx) error {
 	gen := 0
 	rng := c.rng.fork()
 	mutate := func() {
+		tick()
 		gen++
 		_ = os.WriteFile(filepath.Join(src, "a.txt"), []byte(fmt.Sprintf("generation %d %x", gen, rng.bytes(40+rng.intn(3000)))), 0o644)
 		_ = os.WriteFile(filepath.Join(src, "d", fmt.Sprintf("f%d", gen%5)), rng.bytes(100+rng.intn(5000)), 0o644)
@@ -166,6 +314,15 @@ func engineC14(c *vctx) error {
 		}
 		fails := 0
 		var fmsg []string
+		oldIdx, oldPacks := map[string]bool{}, map[string]bool{}
+		for p := range e.repoFiles() {
+			if strings.HasPrefix(p, "index"+string(filepath.Separator)) {
+				oldIdx[filepath.Base(p)] = true
+			}
+			if strings.HasPrefix(p, "data"+string(filepath.Separator)) {
+				oldPacks[filepath.Base(p)] = true
+			}
+		}
 		w.rec.Reset()
 		inHook := false
 		w.rec.OnOp = func(o *vop) error {
@@ -173,6 +330,7 @@ func engineC14(c *vctx) error {
 				return nil
 			}
 			inHook = true
+			tick()
 			defer func() { inHook = false }()
 			for _, cmd := range [][]string{{"--no-lock", "check"}, {"ls", "latest"}, {"--no-lock", "restore", "latest", "--target", tgt, "--verify"}} {
 				_ = os.RemoveAll(tgt)
@@ -212,6 +370,12 @@ func engineC14(c *vctx) error {
 		}
 		c.Case("writer-backup", len(tr) >= 3, len(tr), fmt.Sprintf("CWriter %s %d", coqList(tr), fails),
 			fmt.Sprintf("uploads=%v reader-failures=%d %s", tr, fails, strings.Join(fmsg, "; ")))
+		// the same uploads decoded: per blob, index entry before snapshot, pack before index entry
+		if sterm, sh, serr := c14Semantic(e, w.rec.Mods(), oldIdx, oldPacks); serr != nil {
+			c.Case("writer-decoded", true, len(tr), "CWriterSem (mkView [] []) [SaveSnap [0]]", "decoding the uploads failed: "+serr.Error())
+		} else {
+			c.Case("writer-decoded", len(tr) >= 3, len(tr), sterm, sh)
+		}
 	}
 	return nil
 }
